@@ -1,6 +1,7 @@
 package checks
 
 import (
+	"errors"
 	"bytes"
 	"context"
 	"fmt"
@@ -253,6 +254,8 @@ type lab struct {
 	hist    *history
 	seq     int64
 	lines   map[string][]string // path -> lines currently in that database (for in-place updates)
+	// viaControl, when set, is the control directory: successful kinds of reload are requested through control files
+	viaControl string
 }
 
 func newLab(b harness.Backend, opt harness.ServerOpts, firstGen int) (*lab, error) {
@@ -269,6 +272,34 @@ func newLab(b harness.Backend, opt harness.ServerOpts, firstGen int) (*lab, erro
 	}
 	l.srv, l.path, l.gen = srv, p, g
 	return l, nil
+}
+
+var errControlNotConsumed = errors.New("control file still present after the wait")
+
+// signalByControlFile asks for the reload the way an operator does: it renames a file into the control directory
+// ("reload" for a catch-up, "switchdb" holding the new path for a switch). The handler removes the file at the end
+// of a successful reload; its disappearance is the success the operator can observe.
+func (l *lab) signalByControlFile(sig dnsserver.ReloadSignal) error {
+	name, content := dnsserver.ControlFilePartialReload, ""
+	if sig.Kind == dnsserver.FullReload {
+		name, content = dnsserver.ControlFileFullReload, sig.Payload+"\n"
+	}
+	tmp := filepath.Join(l.dir, fmt.Sprintf("ctl-tmp-%d", atomic.AddInt64(&l.seq, 1)))
+	if err := os.WriteFile(tmp, []byte(content), 0o644); err != nil {
+		return err
+	}
+	dst := filepath.Join(l.viaControl, name)
+	if err := os.Rename(tmp, dst); err != nil {
+		return err
+	}
+	deadline := time.Now().Add(60 * time.Second)
+	for time.Now().Before(deadline) {
+		if _, err := os.Stat(dst); os.IsNotExist(err) {
+			return nil
+		}
+		time.Sleep(200 * time.Microsecond)
+	}
+	return errControlNotConsumed
 }
 
 func (l *lab) newGen() int { l.nextGen++; return l.nextGen }
@@ -383,7 +414,12 @@ func (l *lab) reload(kind string) (ok bool, target int, err error) {
 		return false, target, e
 	}
 	call := l.hist.now()
-	rerr := l.srv.H.Reload(sig)
+	var rerr error
+	if l.viaControl != "" && (kind == "full-ok" || kind == "partial-ok") {
+		rerr = l.signalByControlFile(sig)
+	} else {
+		rerr = l.srv.H.Reload(sig)
+	}
 	ret := l.hist.now()
 	ok = rerr == nil
 	es := ""
